@@ -89,11 +89,18 @@ fn main() {
     // one case in three creates and opens the indexes through RELATIVE paths (the manifest then
     // records relative segment paths); a_abs / b_abs are the same locations, absolute
     let relative = rng.chance(1, 3);
-    let a_abs = scratch.path().join("orig");
-    let b_abs = scratch.path().join("copy");
+    // directory names: unrelated, or siblings one of whose names is a string prefix of the other
+    // (idx / idx_v2, idx.new / idx), or one nested under the other's parent name
+    let (an, bn) = *rng.pick(&[("orig", "copy"), ("orig", "copy"), ("idx_v2", "idx"), ("idx", "idx_v2"), ("idx.new", "idx"), ("data/idx", "idx"), ("a", "ab")][..]);
+    *dist.entry(format!("names_{an}_to_{bn}")).or_insert(0) += 1;
+    let a_abs = scratch.path().join(an);
+    let b_abs = scratch.path().join(bn);
+    if let Some(p) = a_abs.parent() {
+      std::fs::create_dir_all(p).unwrap();
+    }
     let (a, b) = if relative {
       std::env::set_current_dir(scratch.path()).unwrap();
-      (PathBuf::from("orig"), PathBuf::from("copy"))
+      (PathBuf::from(an), PathBuf::from(bn))
     } else {
       (a_abs.clone(), b_abs.clone())
     };
